@@ -2,7 +2,8 @@ CONSTANTS
   MaxFeatures = 2
   PairPaths <- Paths
   Plan <- PlanAny
-  Dev_StopDropsDynamic = TRUE
+  Dev_StopDropsDynamic = FALSE
   Dev_ExcRebuiltFromStr = TRUE
+  Dev_CtorFailureRaises = FALSE
 INIT ObsInit
 NEXT ObsNext
